@@ -133,8 +133,21 @@ type Task struct {
 // or the caller is not a task; shims then pass straight through).
 var cur atomic.Pointer[Task]
 
-// Cur returns the running task or nil.
-func Cur() *Task { return cur.Load() }
+// Cur returns the running task or nil. While goroutines that the library started
+// outside any simulation are still alive (a worker launched at package
+// initialisation), a caller that is not the baton holder's goroutine is such a
+// goroutine: it gets nil, i.e. the real primitives, and runs as part of the
+// environment rather than as a task.
+func Cur() *Task {
+	t := cur.Load()
+	if t != nil && strays.Load() > 0 && t.goid.Load() != curGoid() {
+		return nil
+	}
+	return t
+}
+
+// strays counts live goroutines started by the library while no simulation ran.
+var strays atomic.Int32
 
 // progress is bumped on every kernel step and every reference evaluation; the
 // watchdog turns a stalled process into exit status 2 ("cannot decide").
@@ -208,8 +221,12 @@ func Go(fn func()) {
 	t := Cur()
 	if t == nil {
 		outstanding.Add(1)
+		strays.Add(1)
 		go func() {
-			defer outstanding.Done()
+			defer func() {
+				strays.Add(-1)
+				outstanding.Done()
+			}()
 			fn()
 		}()
 		return
@@ -242,8 +259,20 @@ func ChanPoint() {
 	t.Yield(KYield, nil, "chan", 0)
 }
 
-// WaitOutstanding blocks until the goroutines started outside a simulation are done.
-func WaitOutstanding() { outstanding.Wait() }
+// WaitOutstanding waits (up to three seconds) for the goroutines started outside a
+// simulation to finish; those that stay (a worker that lives for ever) take part
+// in the following runs as free-running environment, not as tasks.
+func WaitOutstanding() {
+	if strays.Load() == 0 {
+		return
+	}
+	done := make(chan struct{})
+	go func() { outstanding.Wait(); close(done) }()
+	select {
+	case <-done:
+	case <-time.After(3 * time.Second):
+	}
+}
 
 // WGAdd / WGWait / Cond* are the modelled halves of sync.WaitGroup and sync.Cond.
 func (t *Task) WGAdd(wg any, delta int) {
@@ -904,7 +933,7 @@ func goroutineDump() (map[int64]string, map[int64]string) {
 func blockedOutside(gid int64) (bool, string) {
 	states, stacks := goroutineDump()
 	st := stacks[gid]
-	if !durablyBlocked(states[gid]) || strings.Contains(st, "verifsim/core.(*Task).call") {
+	if !blockedOnChannel(states[gid]) || strings.Contains(st, "verifsim/core.(*Task).call") {
 		return false, st
 	}
 	return true, states[gid] + "\n" + st
@@ -933,6 +962,17 @@ func durablyBlocked(state string) bool {
 	return false
 }
 
+// blockedOnChannel is the narrower test used for the task holding the baton.
+func blockedOnChannel(state string) bool {
+	return strings.HasPrefix(state, "chan ") || strings.HasPrefix(state, "select")
+}
+
+// OutsideDetection switches the detection of tasks blocked on unmodelled
+// primitives on. It is off unless the library under test contains channel
+// operations (the prepare step knows): a library without them cannot block
+// outside the model, and then nothing in a run depends on goroutine states.
+var OutsideDetection = os.Getenv("VERIF_CHANOPS") == "1"
+
 // byGoid maps goroutine ids to tasks (needed only for scheduling points reached
 // by a task that is not the baton holder: one that came back from outside).
 var byGoid sync.Map
@@ -957,7 +997,7 @@ func (k *Kernel) await(t *Task) (r request, blocked bool) {
 			k.back(r)
 		case <-k.tick.C:
 			idle++
-			if idle < 3 {
+			if idle < 3 || !OutsideDetection {
 				continue
 			}
 			is, where := blockedOutside(t.goid.Load())
@@ -999,7 +1039,7 @@ func firstFrames(s string, n int) string {
 func (k *Kernel) back(r request) {
 	u := r.t
 	if u == nil || !u.outside {
-		k.fail("harness", fmt.Sprintf("request from task %d, which does not hold the baton", u.ID))
+		k.fail("harness", fmt.Sprintf("request (%s) from task %d, which does not hold the baton [last seen blocked at: %s]", r.kind, u.ID, firstFrames(u.blockedAt, 8)))
 		return
 	}
 	u.outside = false
